@@ -184,6 +184,8 @@ PLANS_A = ["SemiSpace", "GenCopy", "GenImmix", "Immix", "StickyImmix", "MarkSwee
 PLANS_B = ["SemiSpace", "GenCopy", "GenImmix", "Immix", "StickyImmix", "MarkSweep", "MarkCompact",
            "Compressor", "ConcurrentImmix", "PageProtect"]
 PLANS_C = ["SemiSpace", "MarkCompact", "PageProtect", "NoGC"]
+# variant D (marksweep_as_nonmoving): the plans whose collections work with a mark-sweep non-moving space
+PLANS_D = ["SemiSpace", "Immix", "MarkSweep", "ConcurrentImmix", "PageProtect"]
 GENERATIONAL = ["GenCopy", "GenImmix", "StickyImmix"]
 COLLECTING = [p for p in PLANS_A if p != "NoGC"]
 
@@ -220,7 +222,7 @@ def std_gc_shards(tier, seed, salt, flags, plans_filter=None, single_mutator=Fal
     shards = []
     reps = reps_quick if tier == "quick" else reps_thorough
     ops = ops_quick if tier == "quick" else ops_thorough
-    table = [("A", PLANS_A), ("B", PLANS_B), ("C", PLANS_C)]
+    table = [("A", PLANS_A), ("B", PLANS_B), ("C", PLANS_C), ("D", PLANS_D)]
     for variant, plans in table:
         if variant not in variants:
             continue
@@ -243,6 +245,9 @@ FINDING_SHARDS = {
     "C01": [
         ("A", "MarkCompact", "config:markcompact+nonmoving-immix-space"),
         ("B", "Compressor", "config:compressor+references-from-immortal-or-nonmoving"),
+        ("D", "StickyImmix", "config:marksweep_as_nonmoving+stickyimmix"),
+        ("D", "MarkCompact", "config:marksweep_as_nonmoving+markcompact"),
+        ("D", "GenCopy", "config:marksweep_as_nonmoving+generational"),
     ],
     "C12": [
         ("A", "ConcurrentImmix", "config:concurrentimmix+nonmoving-immix-space"),
@@ -546,3 +551,32 @@ gcsim("C08", "Interior-pointer and conservative lookups resolve to the right obj
       design_ref="2/C08", shards=c08_shards,
       floors={"quick": {"is_mmtk_object_on_valid_refs": 50000, "is_mmtk_object_on_interior_addresses": 200000, "find_expected_some": 500000, "find_expected_none_short_window": 200000,
                         "find_on_los_objects": 50000, "exact_gap_and_boundary_probes": 50000, "outside_heap_probes": 5000, "probe_batches_exact": 100}})
+
+
+def c09_shards(tier, seed):
+    rnd = _rng(seed, 9)
+    shards = []
+    cycles = 45 if tier == "quick" else 700
+    table = [("A", COLLECTING), ("B", ["Compressor", "StickyImmix", "Immix", "MarkSweep", "GenImmix"]), ("C", ["SemiSpace", "MarkCompact"]), ("D", PLANS_D)]
+    for variant, plans in table:
+        for plan in plans:
+            reps = 1 if tier == "quick" else 2
+            for _ in range(reps):
+                fill = rnd.choice([20, 30, 40]) if plan not in ("GenCopy", "GenImmix") else rnd.choice([20, 25, 30])
+                n = cycles if plan != "PageProtect" else max(12, cycles // 4)  # one mmap/mprotect per object: slow
+                shards.append(gc_shard(variant, plan, rnd, n, mutators=1, heap=rnd.choice([16, 24, 32]), stress=0,
+                                       scenario="cycles", extra=["--fill-pct", fill]))
+    return shards
+
+
+gcsim("C09", "Garbage is fully reclaimable (no space leak across GC cycles)",
+      rule="single-mutator gcsim programs of the shape the property describes, for every collecting plan in variants A-D (D = marksweep_as_nonmoving): 45 cycles (thorough 700) of {allocate 20-40 % of a 16-32 MiB heap as linked structures "
+           "kept reachable from roots, with a different size mix per cycle (tiny objects, medium, the boundary-heavy general mix, half the bytes in large objects, line/block-sized, alternating tiny/large, one size class per cycle; "
+           "Default, LOS and NonMoving semantics; PageProtect and LOS counted in pages), drop every root, force an exhaustive GC, read memory_manager::used_bytes}; E: an allocation fails or Collection::out_of_memory is called; "
+           "used_bytes after the GC > heap/4 (the stated constant floor); max used_bytes after GC over the second half of the run > max over the first half + 1 MiB (growth); every pause is also checked by the C01/C02 oracles; "
+           "case = one cycle; distinct = (size-mix profile, used-after-GC class)",
+      technique="conservation/boundedness monitor on used_bytes and the OOM callback over allocate-drop-collect cycles of live runs",
+      level_text="A bounded restatement of 'any number of cycles': leaks that show within the cycles run. Each cycle's post-GC used_bytes is compared with a constant floor and with the earlier cycles.",
+      note="Objects of never-collected spaces (Immortal; NonMoving under immortal_as_nonmoving) are not part of the garbage by definition and are not allocated here.",
+      design_ref="2/C09", shards=c09_shards,
+      floors={"quick": {"cycles": 800, "growth_checks": 20, "objects_allocated": 2000000}})
